@@ -22,6 +22,8 @@ import vcgen  # noqa: E402
 
 UNITS = json.load(open(os.path.join(ROOT, 'contracts', 'units.json')))
 VERUS = os.environ.get('VERIF_VERUS', 'verus')
+import threading
+GEN_LOCK = threading.Lock()
 
 VERIF_KINDS = [
     ('postcondition not satisfied', 'postcondition'),
@@ -110,8 +112,11 @@ def build_unit(unit, workdir):
     vc = os.path.join(ROOT, 'contracts', UNITS[unit]['vc'])
     res = {'unit': unit, 'status': 'ok', 'failures': [], 'limits': []}
     try:
-        gen = vcgen.generate(vc, canary=False)
-        gen_c = vcgen.generate(vc, canary=True)
+        # the extractor keeps per-run state in module globals (rule flags, file cache): units are generated one at a
+        # time even though they are verified in parallel (a race here once produced a unit without its 'static bounds)
+        with GEN_LOCK:
+            gen = vcgen.generate(vc, canary=False)
+            gen_c = vcgen.generate(vc, canary=True)
     except vcgen.AnchorLost as e:
         res['status'] = 'anchor-lost'
         res['reason'] = str(e)
